@@ -39,7 +39,7 @@ func (t *Thread) syncRecv(args []Value, pos token.Pos) (*Cell, *SyncState) {
 
 func stubLock(t *Thread, fn *ssa.Function, args []Value, pos token.Pos) Value {
 	c, st := t.syncRecv(args, pos)
-	t.visible(&SyncOp{kind: "lock", obj: c, pos: t.posOf(pos), enabled: func() bool { return st.writer == 0 && st.nread == 0 }})
+	t.visible(&SyncOp{kind: "lock", obj: c, tpos: pos, enabled: func() bool { return st.writer == 0 && st.nread == 0 }})
 	if st.writer != 0 || st.nread != 0 {
 		// single-thread fast path cannot get here with the lock free; a held lock means self-deadlock
 		t.blockForever("lock", c, pos, func() bool { return st.writer == 0 && st.nread == 0 })
@@ -54,12 +54,12 @@ func stubLock(t *Thread, fn *ssa.Function, args []Value, pos token.Pos) Value {
 // blockForever parks a thread whose operation is disabled even on the fast path.
 func (t *Thread) blockForever(kind string, obj interface{}, pos token.Pos, en func() bool) {
 	t.e.multi = true
-	t.visible(&SyncOp{kind: kind, obj: obj, pos: t.posOf(pos), enabled: en})
+	t.visible(&SyncOp{kind: kind, obj: obj, tpos: pos, enabled: en})
 }
 
 func stubUnlock(t *Thread, fn *ssa.Function, args []Value, pos token.Pos) Value {
 	c, st := t.syncRecv(args, pos)
-	t.visible(&SyncOp{kind: "unlock", obj: c, pos: t.posOf(pos), enabled: func() bool { return true }})
+	t.visible(&SyncOp{kind: "unlock", obj: c, tpos: pos, enabled: func() bool { return true }})
 	if st.writer == 0 {
 		t.goPanicf(pos, "sync: unlock of unlocked mutex", nil)
 	}
@@ -70,7 +70,7 @@ func stubUnlock(t *Thread, fn *ssa.Function, args []Value, pos token.Pos) Value 
 
 func stubRLock(t *Thread, fn *ssa.Function, args []Value, pos token.Pos) Value {
 	c, st := t.syncRecv(args, pos)
-	t.visible(&SyncOp{kind: "rlock", obj: c, read: true, pos: t.posOf(pos), enabled: func() bool { return st.writer == 0 }})
+	t.visible(&SyncOp{kind: "rlock", obj: c, read: true, tpos: pos, enabled: func() bool { return st.writer == 0 }})
 	if st.writer != 0 {
 		t.blockForever("rlock", c, pos, func() bool { return st.writer == 0 })
 	}
@@ -83,7 +83,7 @@ func stubRLock(t *Thread, fn *ssa.Function, args []Value, pos token.Pos) Value {
 
 func stubRUnlock(t *Thread, fn *ssa.Function, args []Value, pos token.Pos) Value {
 	c, st := t.syncRecv(args, pos)
-	t.visible(&SyncOp{kind: "runlock", obj: c, read: true, pos: t.posOf(pos), enabled: func() bool { return true }})
+	t.visible(&SyncOp{kind: "runlock", obj: c, read: true, tpos: pos, enabled: func() bool { return true }})
 	if st.readers[t.id] == 0 {
 		if st.nread == 0 {
 			t.goPanicf(pos, "sync: RUnlock of unlocked RWMutex", nil)
@@ -110,7 +110,7 @@ func stubWGAdd(t *Thread, fn *ssa.Function, args []Value, pos token.Pos) Value {
 	if d > 0 {
 		acc = "add"
 	}
-	t.visible(&SyncOp{kind: "wg.add", obj: st.key, acc: acc, pos: t.posOf(pos), enabled: func() bool { return true }})
+	t.visible(&SyncOp{kind: "wg.add", obj: st.key, acc: acc, tpos: pos, enabled: func() bool { return true }})
 	st.counter += d
 	if st.counter < 0 {
 		t.goPanicf(pos, "sync: negative WaitGroup counter", nil)
@@ -121,7 +121,7 @@ func stubWGAdd(t *Thread, fn *ssa.Function, args []Value, pos token.Pos) Value {
 
 func stubWGDone(t *Thread, fn *ssa.Function, args []Value, pos token.Pos) Value {
 	_, st := t.syncRecv(args, pos)
-	t.visible(&SyncOp{kind: "wg.done", obj: st.key, acc: "add", pos: t.posOf(pos), enabled: func() bool { return true }})
+	t.visible(&SyncOp{kind: "wg.done", obj: st.key, acc: "add", tpos: pos, enabled: func() bool { return true }})
 	st.counter--
 	if st.counter < 0 {
 		t.goPanicf(pos, "sync: negative WaitGroup counter", nil)
@@ -132,7 +132,7 @@ func stubWGDone(t *Thread, fn *ssa.Function, args []Value, pos token.Pos) Value 
 
 func stubWGWait(t *Thread, fn *ssa.Function, args []Value, pos token.Pos) Value {
 	_, st := t.syncRecv(args, pos)
-	t.visible(&SyncOp{kind: "wg.wait", obj: st.key, pos: t.posOf(pos), enabled: func() bool { return st.counter == 0 }})
+	t.visible(&SyncOp{kind: "wg.wait", obj: st.key, tpos: pos, enabled: func() bool { return st.counter == 0 }})
 	t.acquire(&st.hb)
 	return nil
 }
@@ -142,7 +142,7 @@ func stubWGWait(t *Thread, fn *ssa.Function, args []Value, pos token.Pos) Value 
 func stubAtomicLoad(t *Thread, fn *ssa.Function, args []Value, pos token.Pos) Value {
 	c := t.derefPtr(args[0], pos)
 	st := t.e.syncOf(c)
-	t.visible(&SyncOp{kind: "atomic.load", obj: c, read: true, pos: t.posOf(pos), enabled: func() bool { return true }})
+	t.visible(&SyncOp{kind: "atomic.load", obj: c, read: true, tpos: pos, enabled: func() bool { return true }})
 	t.acquire(&st.hb)
 	return c.v
 }
@@ -150,7 +150,7 @@ func stubAtomicLoad(t *Thread, fn *ssa.Function, args []Value, pos token.Pos) Va
 func stubAtomicStore(t *Thread, fn *ssa.Function, args []Value, pos token.Pos) Value {
 	c := t.derefPtr(args[0], pos)
 	st := t.e.syncOf(c)
-	t.visible(&SyncOp{kind: "atomic.store", obj: c, pos: t.posOf(pos), enabled: func() bool { return true }})
+	t.visible(&SyncOp{kind: "atomic.store", obj: c, tpos: pos, enabled: func() bool { return true }})
 	c.v = args[1]
 	t.release(&st.hb)
 	return nil
@@ -159,7 +159,7 @@ func stubAtomicStore(t *Thread, fn *ssa.Function, args []Value, pos token.Pos) V
 func stubAtomicAdd(t *Thread, fn *ssa.Function, args []Value, pos token.Pos) Value {
 	c := t.derefPtr(args[0], pos)
 	st := t.e.syncOf(c)
-	t.visible(&SyncOp{kind: "atomic.add", obj: c, pos: t.posOf(pos), enabled: func() bool { return true }})
+	t.visible(&SyncOp{kind: "atomic.add", obj: c, tpos: pos, enabled: func() bool { return true }})
 	t.acquire(&st.hb)
 	c.v = t.e.ts.BVBin("bvadd", c.v.(*Term), args[1].(*Term))
 	t.release(&st.hb)
@@ -193,7 +193,7 @@ func (t *Thread) chanSend(cv, x Value, pos token.Pos) {
 		t.e.unsupported("send on unbuffered channel at " + t.posOf(pos))
 	}
 	en := func() bool { return c.closed || len(c.buf) < c.cap }
-	t.visible(&SyncOp{kind: "send", obj: c, acc: "enq", pos: t.posOf(pos), enabled: en})
+	t.visible(&SyncOp{kind: "send", obj: c, acc: "enq", tpos: pos, enabled: en})
 	if !en() {
 		t.blockForever("send", c, pos, en)
 	}
@@ -233,7 +233,7 @@ func (t *Thread) chanRecv(cv Value, commaOk bool, et types.Type, pos token.Pos) 
 	if c.cap == 0 {
 		racc = "r" // a channel that is never sent to (only closed): receiving just reads its state
 	}
-	t.visible(&SyncOp{kind: "recv", obj: c, acc: racc, pos: t.posOf(pos), enabled: c.recvReady})
+	t.visible(&SyncOp{kind: "recv", obj: c, acc: racc, tpos: pos, enabled: c.recvReady})
 	if !c.recvReady() {
 		t.blockForever("recv", c, pos, c.recvReady)
 	}
@@ -250,7 +250,7 @@ func (t *Thread) chanClose(cv Value, pos token.Pos) {
 	if c == nil {
 		t.goPanicf(pos, "close of nil channel", nil)
 	}
-	t.visible(&SyncOp{kind: "close", obj: c, pos: t.posOf(pos), enabled: func() bool { return true }})
+	t.visible(&SyncOp{kind: "close", obj: c, tpos: pos, enabled: func() bool { return true }})
 	if c.closed {
 		t.goPanicf(pos, "close of closed channel", nil)
 	}
@@ -316,7 +316,7 @@ func (t *Thread) selectOp(fr *frame, in *ssa.Select) Value {
 		accs = []string{"r"}
 	}
 	en := func() bool { return !in.Blocking || len(ready()) > 0 }
-	t.visible(&SyncOp{kind: "select", objs: objs, accs: accs, pos: t.posOf(in.Pos()), enabled: en})
+	t.visible(&SyncOp{kind: "select", objs: objs, accs: accs, tpos: in.Pos(), enabled: en})
 	r := ready()
 	res := make(Tuple, 2)
 	nrecv := 0
